@@ -407,23 +407,17 @@ Proof.
 Qed.
 (* the standardised phase describes the same complex number ... *)
 Theorem wrap_phase_same_value x : cos (wrap_phase x) = cos x /\ sin (wrap_phase x) = sin x.
-Proof.
-  unfold wrap_phase. destruct (wrap1_trig (wrap1 (wrap1 x))) as [A B]. destruct (wrap1_trig (wrap1 x)) as [C D].
-  destruct (wrap1_trig x) as [E F]. split; congruence.
-Qed.
-(* ... and lies in [-pi, pi) for every phase the three steps can reach *)
+Proof. unfold wrap_phase. apply wrap1_trig. Qed.
+(* ... and lies in [-pi, pi) for every phase one step can reach *)
 Lemma wrap1_step x a : 0 <= a -> - (2 * a + 3) * PI <= x < (2 * a + 3) * PI ->
   - (2 * a + 1) * PI <= wrap1 x < (2 * a + 1) * PI.
 Proof.
   intros Ha [H1 H2]. pose proof PI_RGT_0 as P. unfold wrap1.
   destruct (Rlt_dec x (- PI)) as [L|L]; [|destruct (Rle_dec PI x) as [G|G]]; nra.
 Qed.
-Theorem wrap_phase_range x : - 7 * PI <= x < 7 * PI -> - PI <= wrap_phase x < PI.
+Theorem wrap_phase_range x : - 3 * PI <= x < 3 * PI -> - PI <= wrap_phase x < PI.
 Proof.
-  intros H. unfold wrap_phase.
-  assert (A : - (2 * 2 + 1) * PI <= wrap1 x < (2 * 2 + 1) * PI) by (apply wrap1_step; [lra|]; lra).
-  assert (B : - (2 * 1 + 1) * PI <= wrap1 (wrap1 x) < (2 * 1 + 1) * PI) by (apply wrap1_step; [lra|]; lra).
-  pose proof (wrap1_step (wrap1 (wrap1 x)) 0 ltac:(lra)) as C. lra.
+  intros H. unfold wrap_phase. pose proof (wrap1_step x 0 ltac:(lra)) as C. lra.
 Qed.
 
 (* ---------- the result written to a file and loaded into a fresh model (every branch, iminuit included) ---------- *)
